@@ -15,6 +15,15 @@ and compares with `spec.search.classify`:
   complete     every required location is reported
   once         no printed path is yielded twice, no location is reported twice
 
+Witness keys (computed from the failing clause, never from the raw input):
+  C07/crash/<Exc>@<file:function>              C07/search-raised/YAMLPathException@<..>
+  C07/reresolve-fails|-empty|-ambiguous/<segment class of the path>   C07/reresolve-crash/<Exc>@<..>
+  C07/reresolve-bad-coordinates/<what>         C07/reported-twice/same-path|two-paths-one-node/<segment class>
+  C07/unsound/<why the spec forbids the node>[/root-scalar|set-in-seq]
+  C07/incomplete/<why the spec demands the node>[/root-scalar|set-in-seq|merged|alias-key|alias-value]
+  C07/get-search-term/crash|wrong-terms|malformed-accepted/...
+A node the spec marks "optional" (from-code clauses R3-R6 of spec/search.py) never yields a witness.
+
 Out of the statement's quantifier (observed only, never a witness):
 `--refnames` (search_anchors=True): crash / resolvability observations are counted
 under out_of_scope.  `decrypt_eyaml` is never set (no eyaml binary here).
@@ -67,6 +76,8 @@ HAND_DOCS = [
     "'k e': &v a\nx.y: [*v, {'k e': *v}]\n",
     # no anchors at all, but keys/values equal to each other (key vs value on one path)
     "a: a\nb: {a: {a: 1, b: [a, {}, []]}}\nx: [b, {x: x}]\n",
+    # sequences in sequences below keys (expansion has to reach the innermost leaves)
+    "a: [[a, [b]], {x: [1, {b: a}]}]\nb: {x: [[x]], 1: [[]]}\n",
 ]
 
 BAD_EXPRESSIONS = ("", "=", "!", "abc", "a=b", "=~a", "!!=a", " =a")
@@ -81,6 +92,23 @@ def expressions():
 
 
 EXPRS = expressions()
+
+
+def parse_expr(expr):
+    """(text, operator, inverted, term) of any well-formed EXPRESSION (used by replay)."""
+    for e in EXPRS:
+        if e[0] == expr:
+            return e
+    body = expr[1:] if expr.startswith("!") else expr
+    for op in sorted(OPS, key=len, reverse=True):
+        if body.startswith(op):
+            term = body[len(op):]
+            if op == "=~":
+                if len(term) < 2 or term[0] != term[-1]:
+                    break
+                term = term[1:-1]
+            return (expr, op, expr.startswith("!"), term)
+    raise ValueError("not a search expression: %r" % (expr,))
 
 
 # ------------------------------------------------------------------ templates with anchors (random extension)
@@ -282,7 +310,8 @@ def real_terms(expr):
     if t is None:
         t = yp.get_search_term(gen.QuietLog(), expr)
         if t is None:
-            raise RuntimeError("get_search_term refused %r (checked before the sweep)" % (expr,))
+            # check_get_search_term() reports this as a witness of its own; the sweep skips the expression
+            return None
         _TERM_CACHE[expr] = t
     return t
 
@@ -353,11 +382,14 @@ def norm_loc(loc):
     return tuple((k, type(gen.plain(v)).__name__, gen.plain(v)) for k, v in loc)
 
 
-KEY_TAGS = ("root-scalar", "set-in-seq", "set-member", "merged", "alias-key", "alias-value", "expanded")
+# Tags that go into a witness key: only those that name a different mechanism, never ones that
+# merely describe where in the document the node happens to sit.
+UNSOUND_TAGS = ("root-scalar", "set-in-seq")
+INCOMPLETE_TAGS = ("root-scalar", "set-in-seq", "merged", "alias-key", "alias-value")
 
 
-def tag_suffix(tags):
-    t = [x for x in KEY_TAGS if x in tags]
+def tag_suffix(tags, which):
+    t = [x for x in which if x in tags]
     return ("/" + "+".join(t)) if t else ""
 
 
@@ -391,12 +423,15 @@ def run_case(coll, ctx, expr_t, mode, alias, expand, sep, refnames=False):
     if refnames:
         inp["refnames"] = True
     terms = real_terms(expr)
+    if terms is None:
+        coll.out_of_scope("expression-refused-by-get_search_term")
+        return
 
     def wit(key, what, observed, expected):
         if refnames:                      # outside the quantifier: observation only
             coll.out_of_scope("refnames:" + key)
         else:
-            coll.witness(key, what, inp, observed, expected)
+            coll.witness(key, what, dict(inp, _key=key), observed, expected)   # _key: which clause replay() should return
 
     # ---- the real search, called the way process_yaml_file does
     try:
@@ -514,14 +549,14 @@ def run_case(coll, ctx, expr_t, mode, alias, expand, sep, refnames=False):
         prev.append(printed)
         sig_out.append(e.status[0] + ":" + e.why)
         if e.status == spec.FORBIDDEN:
-            wit("C07/unsound/%s%s" % (e.why, tag_suffix(e.tags)),
+            wit("C07/unsound/%s%s" % (e.why, tag_suffix(e.tags, UNSOUND_TAGS)),
                 "a path is reported for a node that the expression/options do not select (%s)" % e.why,
                 {"path": printed, "node": loc_json(locs[0]), "all_reported": [r[0] for r in reported]},
                 expected_view())
     for nl, e in cl.items():
         if e.status == spec.REQUIRED and nl not in covered:
             sig_out.append("miss:" + e.why)
-            wit("C07/incomplete/%s%s" % (e.why, tag_suffix(e.tags)),
+            wit("C07/incomplete/%s%s" % (e.why, tag_suffix(e.tags, INCOMPLETE_TAGS)),
                 "a node that satisfies the expression under these options is not reported (%s)" % e.why,
                 {"missing": pathgen.render(list(e.path_segments), sep), "node": loc_json(e.locator),
                  "all_reported": [r[0] for r in reported]},
@@ -602,9 +637,11 @@ def check_get_search_term(coll):
 
 
 BOUNDS = {
-    "quick": {"hand_docs": "all x all configs", "trees_exhaustive": (3, 3), "trees_sampled": (4, 3), "sampled_cfgs_per_tree": 48,
+    "quick": {"hand_docs": "all x all configs", "trees_exhaustive": (3, 3), "value_trees_cfgs": 250,
+              "trees_sampled": (4, 3), "sampled_cfgs_per_tree": 40,
               "random_docs": 400, "random_cfgs_per_doc": 60, "random_max_nodes": 14},
-    "thorough": {"hand_docs": "all x all configs", "trees_exhaustive": (4, 3), "trees_sampled": (5, 3), "sampled_cfgs_per_tree": 12,
+    "thorough": {"hand_docs": "all x all configs", "trees_exhaustive": (4, 3), "value_trees_cfgs": 0,
+                 "trees_sampled": (5, 3), "sampled_cfgs_per_tree": 12,
                  "random_docs": 6000, "random_cfgs_per_doc": 150, "random_max_nodes": 14},
 }
 
@@ -643,7 +680,7 @@ def run(tier="quick", seed=0, jobs=None):
     for t in gen.trees(3, 3, scalars=gen.SCALARS_FULL):
         txt = gen.to_yaml(t) + "\n"
         if txt not in seen_txt:
-            items.append((txt, 0, ("A", "l"), "tree-values"))
+            items.append((txt, b["value_trees_cfgs"], ("A", "l"), "tree-values"))
             seen_txt.add(txt)
     n2, d2 = b["trees_sampled"]
     for t in gen.trees(n2, d2):
@@ -651,24 +688,27 @@ def run(tier="quick", seed=0, jobs=None):
             items.append((gen.to_yaml(t) + "\n", b["sampled_cfgs_per_tree"], ("A", "l"), "tree-sampled"))
     for text in random_docs(seed, b["random_docs"], b["random_max_nodes"]):
         items.append((text, b["random_cfgs_per_doc"], ALIAS, "random"))
-    # interleave cheap and expensive items so that the chunks are balanced
-    rng = random.Random("c07-shuffle|%s" % seed)
-    rng.shuffle(items)
-    for res in harness.pmap_chunks(_work, items, jobs=jobs, chunk=max(8, len(items) // 400), extra=(seed,)):
+    # Order kept on purpose (hand-built, then small trees first): the first inputs recorded per witness key
+    # are then the simplest ones.  Small chunks + a dynamic pool keep the load balanced.
+    for res in harness.pmap_chunks(_work, items, jobs=jobs, chunk=4, extra=(seed,)):
         coll.merge(res)
     full = len(all_configs(ALIAS))
     rule = ("search_for_paths(doc, get_search_term(expr), opts) vs spec.search.classify: no non-YAMLPathException; every "
             "printed path re-queried with Processor.get_nodes(mustexist=True, same pathsep) gives exactly one node; that "
             "node is required/tolerated by the spec (sound); every required node is reported (complete); nothing twice. "
             "Space: %d hand-built anchor/alias/merge documents x %d configs (9 ops x inverted x terms %s x %s x alias %s x "
-            "expand x sep); gen.trees%r exhaustive (alias modes A,l: no anchors) + all 9 scalars on <=3-node shapes; "
+            "expand x sep); gen.trees%r x all configs (alias modes A,l: no anchors) + all 9 scalars on <=3-node shapes "
+            "(%s cfgs/doc); "
             "gen.trees%r sampled %d cfgs/doc; %d seeded random decorated trees (<=%d nodes) x %d cfgs; --refnames observed only."
-            % (len(HAND_DOCS), full, list(TERMS), list(MODES), list(ALIAS), b["trees_exhaustive"], b["trees_sampled"],
+            % (len(HAND_DOCS), full, list(TERMS), list(MODES), list(ALIAS), b["trees_exhaustive"],
+               b["value_trees_cfgs"] or "all", b["trees_sampled"],
                b["sampled_cfgs_per_tree"], b["random_docs"], b["random_max_nodes"], b["random_cfgs_per_doc"]))
     bounds = dict(b)
     bounds.update({"operators": list(OPS), "terms": list(TERMS), "modes": list(MODES), "alias_modes": list(ALIAS),
                    "seps": list(SEPS), "documents": len(items), "seed": seed, "tier": tier})
-    return coll.result(rule=rule, exhaustive=False, bounds=bounds)
+    # thorough: the stated core (hand documents and gen.trees(4,3), every configuration) is enumerated
+    # completely; the larger trees and the random documents are a sampled extension on top of it.
+    return coll.result(rule=rule, exhaustive=(tier == "thorough"), bounds=bounds)
 
 
 def replay(inp):
@@ -696,10 +736,7 @@ def replay(inp):
             EXPRS = keep
     else:
         ctx = Ctx(inp["yaml"])
-        expr_t = [e for e in EXPRS if e[0] == inp["expr"]]
-        if not expr_t:
-            raise ValueError("unknown expression %r" % (inp["expr"],))
-        run_case(coll, ctx, expr_t[0], inp["mode"], inp["alias"], bool(inp["expand"]), inp["sep"],
+        run_case(coll, ctx, parse_expr(inp["expr"]), inp["mode"], inp["alias"], bool(inp["expand"]), inp["sep"],
                  refnames=bool(inp.get("refnames")))
     ws = list(coll.witnesses.values())
     if not ws:
